@@ -12,6 +12,10 @@ OPT = "utype/parser/options.py"
 SCHEMA = "utype/schema.py"
 TRANS = "utype/utils/transform.py"
 UBASE = "utype/utils/base.py"
+GEN = "utype/specs/json_schema/generator.py"
+JPARSER = "utype/specs/json_schema/parser.py"
+JCONST = "utype/specs/json_schema/constant.py"
+ENC = "utype/utils/encode.py"
 
 
 def B(name, prop, rule, *edits, **kw):
@@ -963,6 +967,229 @@ VARIANTS = [
                 continue
 
             if field.dependencies:""")),
+    # ------------------------------------------------------------------ benign variants for C12-C15, C19, C20
+    G("benign C13: addition policy local renamed",
+      (GEN, """        addition = options.addition
+        if addition is not None:
+            if isinstance(addition, type):
+                data.update(additionalProperties=self.generate_for_type(addition))
+            else:
+                data.update(additionalProperties=addition)
+
+        annotations = parser.schema_annotations""", """        policy = options.addition
+        if policy is not None:
+            if isinstance(policy, type):
+                data.update(additionalProperties=self.generate_for_type(policy))
+            else:
+                data.update(additionalProperties=policy)
+
+        annotations = parser.schema_annotations""")),
+    G("benign C13: field view test spelled the other way",
+      (GEN, """        if self.output:
+            if f.always_no_output(options or self.options):
+                return None
+        else:
+            if f.always_no_input(options or self.options):
+                return None""", """        if not self.output:
+            if f.always_no_input(options or self.options):
+                return None
+        else:
+            if f.always_no_output(options or self.options):
+                return None""")),
+    G("benign C13: decimal published through an f-string",
+      (ENC, """        if js_unsafe(data):
+            return str(data)""", """        if js_unsafe(data):
+            return f"{data}\"""")),
+    G("benign C13: is_no_input early returns reordered",
+      (FIELD, """        if no_input is True:
+            return True
+
+        if self.mode:
+            return options.mode not in self.mode
+
+        return bool(no_input)
+
+    def always_no_input""", """        if no_input is True:
+            return True
+
+        if not self.mode:
+            return bool(no_input)
+        return options.mode not in self.mode
+
+    def always_no_input""")),
+    G("benign C14: set encoder as a comprehension",
+      (ENC, """def from_set(data):
+    return list(data)""", """def from_set(data):
+    return [item for item in data]""")),
+    G("benign C14: duration sign applied on the right",
+      (TRANS, "                return sign * t(**kw_)", "                return t(**kw_) * sign")),
+    G("benign C14: offset regex with the signs the other way round",
+      (TRANS, r"""offset = re.search(r'( ?)[+-]\d{2}:?\d{2}(:\d{2})?$', str(data))""",
+       r"""offset = re.search(r'( ?)[-+]\d{2}:?\d{2}(:\d{2})?$', str(data))""")),
+    G("benign C15: const local renamed",
+      (JPARSER, """        const = schema.get('const', unprovided)""", """        const_value = schema.get('const', unprovided)"""),
+      (JPARSER, """        value = const if not unprovided(const) else enum[0] if enum else unprovided""",
+       """        value = const_value if not unprovided(const_value) else enum[0] if enum else unprovided""")),
+    G("benign C15: excludes built in a local first",
+      (JPARSER, """                attname = self.get_attname(attname, excludes=list(attrs) + list(properties) + dir(self.object_base_cls))""",
+       """                taken = list(attrs) + list(properties) + dir(self.object_base_cls)
+                attname = self.get_attname(attname, excludes=taken)""")),
+    G("benign C12: operands of the collapse guard swapped",
+      (TRANS, "            if self.no_data_loss and len(value) > 1:", "            if len(value) > 1 and self.no_data_loss:")),
+    G("benign C12: to_bool raises with a message",
+      (TRANS, """            return False
+        if self.no_explicit_cast:
+            raise TypeError
+        if isinstance(data, bytes):""", """            return False
+        if self.no_explicit_cast:
+            raise TypeError('explicit cast is not allowed')
+        if isinstance(data, bytes):""")),
+    G("benign C12: addition guard spelled with the sentinel first",
+      (OPT, "            if addition is None or unprovided(addition):", "            if unprovided(addition) or addition is None:")),
+    G("benign C19: converter builds its result in a local list",
+      (TRANS, """                for sep in self.ARRAY_SEPARATORS:
+                    if sep in data:
+                        return t(v.strip() for v in data.split(sep))""", """                for sep in self.ARRAY_SEPARATORS:
+                    if sep in data:
+                        parts = []
+                        for v in data.split(sep):
+                            parts.append(v.strip())
+                        return t(parts)""")),
+    G("benign C20: done list renamed",
+      (BASE, """            done = []
+            try:
+                return self._resolve_forward_refs(done, local_vars=local_vars, ignore_errors=ignore_errors)
+            finally:
+                # the pending entries go last: callers that see none pending skip the lock,
+                # so every resolved type has to be in place by then
+                for name in done:
+                    self.forward_refs.pop(name, None)""", """            finished = []
+            try:
+                return self._resolve_forward_refs(finished, local_vars=local_vars, ignore_errors=ignore_errors)
+            finally:
+                for key in finished:
+                    self.forward_refs.pop(key, None)""")),
+    G("benign C20: memo hit variable renamed, truthiness test",
+      (UBASE, """            cached = self._cache.get(t)
+            if cached is not None:
+                return cached""", """            hit = self._cache.get(t)
+            if hit:
+                return hit""")),
+    G("benign C20: registration region also logs",
+      (UBASE, """            with self._lock:
+                self._registry.insert(0, (detector, f, priority))""", """            with self._lock:
+                _ = len(self._registry)
+                self._registry.insert(0, (detector, f, priority))""")),
+    # ------------------------------------------------------------------ breaking variants of my own for the new rules
+    B("C13 ge published as exclusiveMinimum", "C13", "R13a",
+      (JCONST, "        'ge': 'minimum',", "        'ge': 'exclusiveMinimum',")),
+    B("C13 input view decided by the output predicate", "C13", "R13b",
+      (GEN, """        else:
+            if f.always_no_input(options or self.options):
+                return None""", """        else:
+            if f.always_no_output(options or self.options):
+                return None""")),
+    B("C13 required decided by the declaration flag", "C13", "R13c",
+      (GEN, "            if field.is_required(options or self.options):\n                # will count", "            if field.required:\n                # will count")),
+    B("C13 additionalProperties published without a policy", "C13", "R13d",
+      (GEN, """        if addition is not None:
+            if isinstance(addition, type):
+                data.update(additionalProperties=self.generate_for_type(addition))""", """        if True:
+            if isinstance(addition, type):
+                data.update(additionalProperties=self.generate_for_type(addition))""")),
+    B("C13 fixed tuples published as items", "C13", "R13f",
+      (GEN, "                name = 'prefixItems'\n                return {name: args_res}", "                name = 'items'\n                return {name: args_res}")),
+    B("C14 time encoder returns the object", "C14", "R14b",
+      (ENC, """    r = data.isoformat()
+    if data.microsecond:
+        r = r[:12]
+    return r""", """    return data""")),
+    B("C14 timedelta converter registration removed", "C14", "R14a",
+      (TRANS, "    @registry.register(timedelta)\n    def to_timedelta", "    def to_timedelta")),
+    B("C14 decimal rebuilt from the float", "C14", "R14f",
+      (TRANS, "        return t(str(data).strip())  # noqa", "        return t(data)  # noqa")),
+    B("C14 bytes published as latin-1", "C14", "R14f",
+      (ENC, '    return data.decode("utf-8", errors="replace")\n\n\n@register_encoder(PurePath', '    return data.decode("latin-1", errors="replace")\n\n\n@register_encoder(PurePath')),
+    B("C15 exclusiveMaximum mapped to le", "C15", "R15a",
+      (JCONST, "    'exclusiveMaximum': 'lt',", "    'exclusiveMaximum': 'le',")),
+    B("C15 minItems mapped to max_length", "C15", "R15a",
+      (JCONST, "    'minItems': 'min_length',", "    'minItems': 'max_length',")),
+    B("C15 integer built as float", "C15", "R15b",
+      (JCONST, "    'integer': int,", "    'integer': float,")),
+    B("C15 revert F16: shadowed builtin called", "C15", "R15c",
+      (JPARSER, "            t = _type(value)", "            t = type(value)")),
+    B("C15 $ref followed while translating", "C15", "R15d",
+      (JPARSER, """        if ref:
+            return ForwardRef(self.get_def_name(ref))""", """        if ref:
+            target = self.get_ref_object(ref)
+            if target:
+                return self.parse_type(target)
+            return ForwardRef(self.get_def_name(ref))""")),
+    B("C15 revert F25: sanitiser not told about base attributes", "C15", "R15e",
+      (JPARSER, "excludes=list(attrs) + list(properties) + dir(self.object_base_cls))", "excludes=list(attrs) + list(properties))")),
+    B("C15 prefixItems iterated without a guard", "C15", "R15f",
+      (JPARSER, """        if prefix_items:
+            origin = tuple
+            args = [self.parse_type(item) for item in prefix_items]
+""", """        args = [self.parse_type(item) for item in prefix_items]
+        if prefix_items:
+            origin = tuple
+""")),
+    B("C12 to_bool: explicit-cast gate deleted", "C12", "R12c",
+      (TRANS, """            return False
+        if self.no_explicit_cast:
+            raise TypeError
+        if isinstance(data, bytes):""", """            return False
+        if isinstance(data, bytes):""")),
+    B("C12 revert F31: addition guard misses the default", "C12", "R12b",
+      (OPT, "            if addition is None or unprovided(addition):", "            if addition is None:")),
+    B("C12 lenient decoding under no_data_loss", "C12", "R12c",
+      (TRANS, 'return data.decode(errors="strict" if self.no_data_loss else "ignore")', 'return data.decode(errors="ignore")')),
+    B("C12 to_filelike never reads no_explicit_cast", "C12", "R12a",
+      (TRANS, """            return t(data)
+        if self.no_explicit_cast:
+            raise TypeError
+        return t(str(data).encode())
+
+    @registry.register(type""", """            return t(data)
+        return t(str(data).encode())
+
+    @registry.register(type""")),
+    B("C19 data-first pops the consumed keys from the input", "C19", "R19b",
+      (BASE, """            provided[name] = value
+            parsed = field.parse_value(value, context=context)""", """            provided[name] = data.pop(key, value)
+            parsed = field.parse_value(value, context=context)""")),
+    B("C19 parser remembers the last result", "C19", "R19c",
+      (BASE, """        result = self.parse_data(data, context=context)
+        context.raise_error()""", """        result = self.parse_data(data, context=context)
+        self.last_result = result
+        context.raise_error()""")),
+    B("C19 context kept on the parser", "C19", "R19d",
+      (BASE, """        if not context:
+            context = self.options.make_context(self.cls)
+        result = self.parse_data""", """        if not context:
+            context = self.options.make_context(self.cls)
+        self.context = context
+        result = self.parse_data""")),
+    B("C20 forward-ref lock removed", "C20", "R20a",
+      (BASE, """        with forward_refs_lock:
+            # a concurrent caller that waited here finds nothing pending any more
+            done = []""", """        if True:
+            # a concurrent caller that waited here finds nothing pending any more
+            done = []""")),
+    B("C20 pending entries dropped before the types are in place", "C20", "R20b",
+      (BASE, "                    done.append(name)\n", "                    done.append(name)\n                    self.forward_refs.pop(name, None)\n")),
+    B("C20 memo filled outside the lock", "C20", "R20c",
+      (UBASE, """        with self._lock:
+            # a fill must not straddle a registration: it would memoise the outdated answer after the reset
+            for detector""", """        if True:
+            # a fill must not straddle a registration: it would memoise the outdated answer after the reset
+            for detector""")),
+    B("C20 memo read by membership then subscript", "C20", "R20c",
+      (UBASE, """            cached = self._cache.get(t)
+            if cached is not None:
+                return cached""", """            if t in self._cache:
+                return self._cache[t]""")),
     G("benign comment and blank lines",
       (RULE, "        context.raise_error()  # raise error if collected\n        return value", "        # flush\n\n        context.raise_error()\n        return value")),
 ]
